@@ -32,6 +32,7 @@ run c02-cpp-callback-never-deleted tool/templates/cpp/runtime.hpp.jinja 's/     
 run c02-cpp-callback-string-arg-short tool/templates/cpp/runtime.hpp.jinja 's/return std::string_view{val.data, val.len};/return std::string_view{val.data, val.len > 2 ? val.len - 1 : val.len};/' C02
 run c04-nanobind-keepalive-off-by-one tool/src/nanobind/ty.rs 's/                                i + 1 + self_number$/                                i + self_number/' C04
 run c04-kotlin-opaque-return-drops-edges tool/templates/kotlin/OpaqueReturn.kt.jinja 's/{{param}}{%- endfor %}/listOf(){%- endfor %}/' C04
+run c01-trait-vtable-destructor-last macro/src/lib.rs '0,/        pub destructor: Option<unsafe extern "C" fn(\*const c_void)>,/s///; 0,/        pub alignment: usize,/s//        pub alignment: usize, pub destructor: Option<unsafe extern "C" fn(*const c_void)>,/' C01
 # reverts of repairs made to /repo: the check that found the defect must fire again
 revert() { # commit checks...
   c="$1"; shift; name="revert-$c"; if [ -n "$FILTER" ] && [[ "$name" != *$FILTER* ]]; then return; fi
@@ -76,4 +77,4 @@ revert 9bea1b7 C04
 revert 25cefdc C17 C13
 revert e3cce72 C15
 revert 1ff4174 C09
-revert e1ffc85 C09
+revert e1ffc85 C09 C01
